@@ -4,7 +4,7 @@ import core
 from props import collector_common as cc
 
 ID = 'C06'
-EXTRACT = ['collector', 'frames']
+EXTRACT = ['collector', 'frames', 'collector_time']
 LEAN_TARGETS = ['DeepModel.Props.C06']
 AUDIT = 'DeepModel/Audit/C06.lean'
 DRIVER = 'DeepModel/Driver/C05.lean'
